@@ -472,3 +472,138 @@ def n3(prog):
     except (OutOfBounds, Thrown) as x:
         raise Broken("grammar action cannot be evaluated: %s" % x)
     return inst, findings
+
+
+# ---------------------------------------------------------------------------
+# N4 / N5: the scanner simulated (flex's rule selection decided from the patterns, actions interpreted from source)
+
+_SCN = {}
+
+
+def _scanner(prog):
+    import flexsim
+    if id(prog) not in _SCN:
+        _SCN[id(prog)] = flexsim.Scanner(prog)
+    return _SCN[id(prog)]
+
+
+def _lit(sc, text):
+    """bytes denoted by the query `text` that consists of one string literal without directives, or ('error', msg)"""
+    import flexsim
+    try:
+        toks, fired = sc.tokens(text)
+    except flexsim.ScanError as x:
+        return ("error", str(x)), []
+    if [t[0] for t in toks] != ["TOK_LIT_STR", "TOK_EOF"]:
+        return ("tokens", [t[0] for t in toks]), fired
+    tree = toks[0][1]
+    kids = tree[2] if tree else ()
+    if len(kids) == 0:
+        return b"", fired
+    if len(kids) == 1 and not kids[0][2]:
+        return kids[0][1], fired
+    return ("tree", tree), fired
+
+
+def n4(prog):
+    """string literals denote the documented bytes: for every escape of doc/syntax.rst (named escapes of `man ascii`, \\\\ and \\", octal
+    \\N \\NN \\NNN, hex \\xHH, escaped and literal end of line), in the middle, at the end of the literal and before a character that
+    could continue it; raw literals keep every escape intact; "a"\\ "b" continuation (also switching raw on and off) equals the
+    concatenation; %% is a percent sign.  The rule that fires at each position is decided from lexer.ll's patterns with flex's
+    discipline (longest match, then the earlier rule), its action is interpreted from source."""
+    inst, findings = [], []
+    sc = _scanner(prog)
+    named = {"a": 7, "b": 8, "e": 27, "t": 9, "n": 10, "v": 11, "f": 12, "r": 13, "\\": 92, '"': 34}
+    cases = []          # (group, source text, expected bytes)
+    for ch, code in sorted(named.items()):
+        for pre, post in ((b"x", b"y"), (b"", b""), (b"x", b"7")):
+            cases.append(("named", b'"' + pre + b"\\" + ch.encode() + post + b'"', pre + bytes([code]) + post))
+            cases.append(("raw", b'r"' + pre + b"\\" + ch.encode() + post + b'"', pre + b"\\" + ch.encode() + post))
+    for digits in ("0", "1", "3", "7", "07", "12", "40", "101", "377", "000", "001"):
+        if digits[0] > "3":
+            continue
+        v = int(digits, 8)
+        posts = [b"", b"y", b"8", b" "] + ([b"7"] if len(digits) == 3 else [])
+        for post in posts:
+            cases.append(("octal", b'"x\\' + digits.encode() + post + b'"', b"x" + bytes([v]) + post))
+            cases.append(("raw", b'r"x\\' + digits.encode() + post + b'"', b"x\\" + digits.encode() + post))
+    for hx in ("00", "41", "7f", "80", "ff", "Ab", "aB"):
+        for post in (b"", b"y", b"0"):
+            cases.append(("hex", b'"x\\x' + hx.encode() + post + b'"', b"x" + bytes([int(hx, 16)]) + post))
+            cases.append(("raw", b'r"x\\x' + hx.encode() + post + b'"', b"x\\x" + hx.encode() + post))
+    cases += [("eol", b'"foo\\\nbar"', b"foobar"), ("eol", b'"foo\nbar"', b"foo\nbar"), ("eol", b'"\\\n"', b""),
+              ("percent", b'"100%%"', b"100%"), ("percent", b'"%%s"', b"%s"), ("percent", b'r"%%"', b"%"),
+              ("plain", b'""', b""), ("plain", b'"a b\tc"', b"a b\tc"), ("plain", b'"\x80\xff"', b"\x80\xff"), ("plain", b'"#//*"', b"#//*"),
+              ("continuation", b'"a"\\ "b"', b"ab"), ("continuation", b'"a"\\"b"', b"ab"), ("continuation", b'"a"\\\n\t "b"', b"ab"),
+              ("continuation", b'"a\\n"\\ r"\\n"', b"a\n\\n"), ("continuation", b'r"\\n"\\ "\\n"', b"\\n\n"), ("continuation", b'""\\ ""', b""),
+              ("continuation", b'"a"\\ "b"\\ "c"', b"abc")]
+    by_group = {}
+    for g, src, want in cases:
+        got, fired = _lit(sc, src)
+        ok = got == want
+        by_group.setdefault(g, []).append((src, want, got, fired, ok))
+    for g, rows in sorted(by_group.items()):
+        key = "N4:" + g
+        inst.append((key, {"literals": len(rows)}))
+        bad = [r for r in rows if not r[4]]
+        if bad:
+            src, want, got, fired, _ = bad[0]
+            rule = next(("<%s>%s" % (f[0], f[1]) for f in fired if f[0] == "STRING" and f[2][:1] == b"\\"), None)
+            findings.append({"key": key, "where": "libzwerg/lexer.ll",
+                             "msg": "the literal %s denotes %r but the scanner builds %r%s (%d of %d literals of this group differ)" % (
+                                 src.decode("latin-1"), want, got, (" (the escape is taken by rule %s)" % rule) if rule else "", len(bad), len(rows)),
+                             "detail": [(r[0].decode("latin-1"), repr(r[1]), repr(r[2])) for r in bad[:10]]})
+    return inst, findings
+
+
+def n5(prog):
+    """layout is transparent: for a set of programs covering every token kind, inserting blanks, tabs, newlines and whitespace-delimited
+    comments of all three styles (# ..., // ..., /* ... */ incl. empty, multi-line, starred and ones containing `/`, `*`, quotes and
+    comment starters) before the first token, between every two tokens and after the last one gives the scanner the same token
+    sequence (token kinds and their texts / string trees)."""
+    import flexsim
+    inst, findings = [], []
+    sc = _scanner(prog)
+    programs = [[b"entry", b"?TAG_x", b"(", b"@AT_name", b",", b"child", b"*", b")", b"==", b'"a b"', b"||", b"-1", b"0x1f", b"?0", b"swap"],
+                [b"let", b"A", b":=", b"[", b"1", b",", b"2", b"]", b";", b"A", b"elem", b"+", b"{", b"}", b"?(", b")", b"!{", b"}"],
+                [b"if", b"?{", b"}", b"then", b"``[", b"]", b"else", b'r"\\n"', b"|", b".x", b"\\dbg", b"?", b"!(", b")", b":", b"!eq"]]
+    fillers = {"blank": [b" ", b"  ", b"\t", b"\n", b" \n\t "],
+               "hash": [b" # c\n", b" #\n", b" # a \" /* b\n"],
+               "slashes": [b" // c\n", b" //\n", b" // a # \" */ b\n"],
+               "block": [b" /* c */ ", b" /**/ ", b" /* a\nb */ ", b" /* * / */ ", b" /* \" # // */ ", b" /***/ ", b" /* a **/ ", b" /** a */ ", b" /* a* */ "]}
+    n = 0
+    for g, fl in sorted(fillers.items()):
+        key = "N5:" + g
+        bad = None
+        cnt = 0
+        for toks in programs:
+            base_text = b" ".join(toks)
+            try:
+                base, _ = sc.tokens(base_text)
+            except flexsim.ScanError as x:
+                raise Broken("the reference program %r does not scan: %s" % (base_text, x))
+            if len(base) != len(toks) + 1:
+                raise Broken("the reference program %r scans to %d tokens, expected %d" % (base_text, len(base) - 1, len(toks)))
+            for f in fl:
+                for pos in range(len(toks) + 1):
+                    parts = []
+                    for i, t in enumerate(toks):
+                        parts.append(f if i == pos else b" ")
+                        parts.append(t)
+                    parts.append(f if pos == len(toks) else b" ")
+                    text = b"".join(parts)
+                    cnt += 1
+                    try:
+                        got, _ = sc.tokens(text)
+                    except flexsim.ScanError as x:
+                        got = ("error", str(x))
+                    if got != base and bad is None:
+                        where = "before the first token" if pos == 0 else "after the last token" if pos == len(toks) else "between `%s` and `%s`" % (toks[pos - 1].decode(), toks[pos].decode())
+                        bad = "inserting %r %s of `%s` changes what the parser sees: %s" % (
+                            f.decode("latin-1"), where, base_text.decode("latin-1"),
+                            got if isinstance(got, tuple) else [t for t in got if t not in base][:4] or "tokens lost")
+        n += cnt
+        inst.append((key, {"variants": cnt}))
+        if bad:
+            findings.append({"key": key, "where": "libzwerg/lexer.ll", "msg": bad, "detail": None})
+    return inst, findings
